@@ -153,7 +153,7 @@ def replay_cases(run: Run, st, griffe, parents: Parents, cases: list, rnd: rando
             options = option_fills(style, case["opts"], case.get("excl", []), parent, which, rnd)
             text, parts = st.concretise(lines, v)
             history = 2 if (n + j) % 12 == 0 else 1 if (n + j) % 3 == 0 else 0       # second / third parse of the same docstring
-            r = real_parse(griffe, parents, style, text, parent, options, timeout=3.0 if stats.timeouts == 0 else 0.5, history=history)
+            r = real_parse(griffe, parents, style, text, parent, options, timeout=2.0 if stats.timeouts == 0 else 0.5, history=history)
             stats.parses += 1
             if r["exc"] == "Timeout":
                 stats.timeouts += 1
@@ -346,7 +346,8 @@ def main(tier: str, replay: str | None = None):
                 die(f"{PROP}: {style} {label} domain: TLC reports {res.violated} violated on the model, expected {sorted(SMALL_DOMAINS[style, label])}")
             stats = Stats()
             before = sum(h["count"] for h in run.known_hits.values()) + len(run.violations)
-            replay_cases(run, st, griffe, parents, res.cases, rnd, stats, f"tlc:{label}-domain", ALL_PARENTS)
+            # every candidate parent, except in the one large domain (numpy, 5 lines), where the choice rotates over the cases
+            replay_cases(run, st, griffe, parents, res.cases, rnd, stats, f"tlc:{label}-domain", 3 if len(res.cases) > 3000 and tier == "quick" else ALL_PARENTS)
             after = sum(h["count"] for h in run.known_hits.values()) + len(run.violations)
             if SMALL_DOMAINS[style, label]:
                 run.note(f"{style}: {label} domain: TLC reports {res.violated} violated on the model; {after - before} violation(s) of the real parser in its {len(res.cases)} final states")
